@@ -406,7 +406,10 @@ func (c *channel) reconnect(maxRetries float64) {
 		c.reconnectMut.Unlock()
 		c.setLastErr(err)
 		if retries >= maxRetries && maxRetries > 0 {
-			c.streamBroken.set()
+			// streamBroken is still set from before this attempt. It must not be set again here,
+			// after the locks have been released: the other goroutine may have re-created the
+			// stream meanwhile, and a stale flag would make the next reconnect wait forever for
+			// the write lock while the receiver holds the read lock on the healthy stream.
 			return
 		}
 		delay := float64(backoffCfg.BaseDelay)
